@@ -121,3 +121,13 @@ def qToPosit (qf : QFmt) (s : Option Rat) : Nat :=
   match s with | none => nar qf.p | some x => round qf.p x
 
 end Spec
+
+namespace Spec
+/-! generic-width posits: patterns are left-aligned in 32 bits; a pattern with non-zero low `32-n` bits is outside C13/C14 -/
+def pxIn (n : Nat) (a : Nat) : Option Nat := if 2 ≤ n ∧ n ≤ 32 ∧ lowZero n a then some (unembed n a) else none
+def pxLift1 (n : Nat) (a : Nat) (f : Nat → Nat) : Option Nat := (pxIn n a).map f
+def pxLift2 (n : Nat) (a b : Nat) (f : Nat → Nat → Nat) : Option Nat :=
+  match pxIn n a, pxIn n b with | some x, some y => some (f x y) | _, _ => none
+def pxLift3 (n : Nat) (a b c : Nat) (f : Nat → Nat → Nat → Nat) : Option Nat :=
+  match pxIn n a, pxIn n b, pxIn n c with | some x, some y, some z => some (f x y z) | _, _, _ => none
+end Spec
